@@ -326,6 +326,34 @@ def prunedImports (m : PyModuleIR) : List ImportE := pruneWith (keepName m) m.im
 /-- the module as `ast_to_str` writes it: same statements, unused imports removed -/
 def written (m : PyModuleIR) : PyModuleIR := { m with imports := prunedImports m }
 
+/-! ### Constant positions of the emitted module (every `generate_constant(…)` that ends up in it) -/
+
+def ArgE.consts (a : ArgE) : List CExpr := [a.default, a.description, a.deprecation]
+
+def FieldE.consts (f : FieldE) : List CExpr :=
+  f.args.flatMap (fun p => p.2.consts) ++ [f.description, f.deprecation]
+
+def EnumValE.consts (v : EnumValE) : List CExpr := [v.value, v.description, v.deprecation]
+
+def TypeE.consts : TypeE → List CExpr
+  | .scalar _ n d u => [n, d, u]
+  | .composite _ n d _ fs =>
+      n :: d :: (match fs with | .emptyConst => [] | .thunk items => items.flatMap fun p => p.2.consts)
+  | .union _ n d _ => [n, d]
+  | .enum _ n d vs => n :: d :: vs.flatMap fun p => p.2.consts
+  | .input _ n d fs =>
+      n :: d :: (match fs with | .emptyConst => [] | .thunk items => items.flatMap fun p => p.2.consts)
+
+def DirectiveE.consts (d : DirectiveE) : List CExpr :=
+  d.name :: d.description :: d.repeatable ::
+    (match d.args with | none => [] | some as => as.flatMap fun p => p.2.consts)
+
+/-- every `CExpr` of the module: names, descriptions, `specified_by_url`s, deprecation reasons,
+    default values, enum values, `is_repeatable` flags, the schema description
+    (dict keys — type, field, argument, enum value names — are plain strings in the IR) -/
+def PyModuleIR.consts (m : PyModuleIR) : List CExpr :=
+  m.typeMap.flatMap (fun p => p.2.consts) ++ m.schema.directives.flatMap (·.consts) ++ [m.schema.description]
+
 /-! ### Target dispatch (settings.py + main.graphql_schema) -/
 
 /-- components of a POSIX path the way `pathlib` parses it: empty and `.` components vanish -/
